@@ -78,7 +78,17 @@ def gen_case(r, k):
         bx = r.choice([d for d in range(1, nx + 1) if nx % d == 0])
     else:
         by, bx = r.randint(1, ny), r.randint(1, nx)        # padded edge boxes, corner box
+    corner = k % 7 == 3
+    if corner:
+        # both dimensions leave a remainder: the padded corner box is the one box handled as a 2-D array - large enough for clipping to act,
+        # with outliers inside it, and kept by exclude_percentile (seed C11-r13 clipped it row by row)
+        ny, nx = r.randint(8, 11), r.randint(8, 11)
+        by, bx = ny - r.randint(3, 4), nx - r.randint(3, 4)
     data = gens.image(r, ny, nx, special=0.3, palette=0.35)
+    if corner:
+        data = np.round(np.random.RandomState(r.randrange(2 ** 31)).normal(10, 1, (ny, nx)) * 16) / 16
+        for _ in range(r.randint(1, 2)):
+            data[r.randrange(by, ny), r.randrange(bx, nx)] = r.choice([64.0, -48.0, 100.5])
     if r.random() < 0.3:                                    # a few strong outliers so that clipping acts
         for _ in range(r.randint(1, 3)):
             data[r.randrange(ny), r.randrange(nx)] = r.choice([64.0, -48.0, 100.5])
@@ -93,6 +103,10 @@ def gen_case(r, k):
     sigma = r.choice([None, 3.0, 3.0, 2.0, 1.5, 2.5])
     maxiters = r.choice([1, 2, 3, 10, 10])
     est = r.choice(['mean', 'median', 'sextractor', 'sextractor'])
+    if corner:
+        mask, cov = None, None
+        pct = r.choice([90.0, 100.0, 95.0])
+        sigma = r.choice([3.0, 2.0, 2.5])
     return dict(ny=ny, nx=nx, by=by, bx=bx, data=data, mask=mask, cov=cov, pct=pct, sigma=sigma, maxiters=maxiters, est=est,
                 rms_own_clip=r.choice([None, None, 1.0, 1.5]))
 
@@ -338,7 +352,9 @@ def probes(rep, r, n):
             sc = None if sigma is None else SigmaClip(sigma=sigma, maxiters=10)
             with warnings.catch_warnings():
                 warnings.simplefilter('ignore')
-                b = Background2D(data, (by, bx), mask=mask, coverage_mask=cov, fill_value=fill, exclude_percentile=pct,
+                # every fourth scene hands the masks over as 0/1 integer arrays (F78: an integer coverage_mask was used as an index array)
+                as_given = (lambda m_: m_) if k % 4 != 1 else (lambda m_: None if m_ is None else m_.astype([np.uint8, np.int64][(k // 4) % 2]))
+                b = Background2D(data, (by, bx), mask=as_given(mask), coverage_mask=as_given(cov), fill_value=fill, exclude_percentile=pct,
                                  filter_size=fs, filter_threshold=fthr, sigma_clip=sc, bkg_estimator=Be(), bkgrms_estimator=Re(),
                                  interpolator=interp)
                 return b, np.asarray(b.background), np.asarray(b.background_rms), np.asarray(b.background_mesh), np.asarray(b.background_rms_mesh)
